@@ -26,7 +26,7 @@ DefaultOfField(prog, f) ==
 
 DefaultVals(prog, fs, i) ==
     IF i > Len(fs) THEN <<>>
-    ELSE IF fs[i].k \in {"Em", "Move"} THEN DefaultVals(prog, fs, i + 1)
+    ELSE IF fs[i].k \in {"Em", "Move", "Emb"} THEN DefaultVals(prog, fs, i + 1)
     ELSE <<[n |-> fs[i].name, v |-> DefaultOfField(prog, fs[i])]>> \o DefaultVals(prog, fs, i + 1)
 
 \* Cls(**K): keyword arguments override exactly the fields they name
@@ -66,7 +66,7 @@ AltsDom(prog, alts, i, depth) ==
 
 ValsDom(prog, fs, i, depth) ==
     IF i > Len(fs) THEN {<<>>}
-    ELSE IF fs[i].k \in {"Em", "Move"} THEN ValsDom(prog, fs, i + 1, depth)
+    ELSE IF fs[i].k \in {"Em", "Move", "Emb"} THEN ValsDom(prog, fs, i + 1, depth)
     ELSE {<<[n |-> fs[i].name, v |-> x]>> \o rest :
              x \in FieldDom(prog, fs[i], depth), rest \in ValsDom(prog, fs, i + 1, depth)}
 
@@ -128,7 +128,7 @@ ConsistentField(prog, cls, f, vals) ==
 ConsistentPkt(prog, cls, vals) ==
     \A i \in 1..Len(prog[cls].fields) :
         LET f == prog[cls].fields[i] IN
-        f.k \in {"Em", "Move"} \/ (HasVal(vals, f.name) /\ ConsistentField(prog, cls, f, vals))
+        f.k \in {"Em", "Move", "Emb"} \/ (HasVal(vals, f.name) /\ ConsistentField(prog, cls, f, vals))
 
 NoPositioning(prog) ==
     \A c \in DOMAIN prog : prog[c].opts.align = 0 /\
@@ -161,7 +161,7 @@ EncVals(prog, cls, i, vals) ==
     ELSE IF fs[i].k = "Bits"
          THEN (IF BitsLast(fs, i) THEN EncodeBE(RunValue2(fs, RunStart(fs, i), i, vals), RunBits(fs, i) \div 8) ELSE <<>>)
               \o EncVals(prog, cls, i + 1, vals)
-         ELSE IF fs[i].k \in {"Em", "Move"} THEN EncVals(prog, cls, i + 1, vals)
+         ELSE IF fs[i].k \in {"Em", "Move", "Emb"} THEN EncVals(prog, cls, i + 1, vals)
          ELSE EncValue(prog, prog[cls].opts, fs[i], Lookup(vals, fs[i].name)) \o EncVals(prog, cls, i + 1, vals)
 
 Layout(prog, cls, vals) == EncVals(prog, cls, 1, vals)
